@@ -259,6 +259,26 @@ theorem send_past_the_lock_returns (a : Nat) (r : Run sys) (hfair : WeakFair sys
     have hout : inH ((r.st (k + 1)).senders a).pc = false := by cases e : inH ((r.st (k + 1)).senders a).pc <;> simp_all
     exact ⟨k, h1, h3, send_exit_is_done a h3 hn hout⟩
 
+/-- WAIT RETURNS, AND THE UNSUBSCRIBE PATH THROUGH THE CASTER ENDS.  Under the same fairness, if a Send `a` is past the lock at
+    step `i`, a later state is reached in which that Send has returned and released sendMu, and in that state no subscriber is
+    between a receive and the end of its Wait, none is absorbing a copy, none owes a receive-or-remove: every Wait that was
+    pending on this Send has consumed its pong, every mid-send unsubscribe has finished with the caster.  (A subscriber spinning on
+    a failed TryRLock then finds sendingMu free: `no_deadlock`.) -/
+theorem pending_waits_and_absorbs_finish (a : Nat) (r : Run sys) (hfair : WeakFair sys (fun _ act => sendProgress a act) r)
+    (i : Nat) (hi : inH ((r.st i).senders a).pc = true) :
+    ∃ j, i < j ∧ ((r.st j).senders a).pc = .done ∧ (r.st j).sendMu = false ∧
+      ∀ t, ((r.st j).subs t).pc ≠ .got ∧ ((r.st j).subs t).pc ≠ .absorbing ∧ ((r.st j).subs t).owes = false := by
+  obtain ⟨k, h1, h3, hd⟩ := send_past_the_lock_returns a r hfair i hi
+  have hn := r.next k
+  cases hact : r.act k with
+  | none => simp only [hact] at hn; rw [hn] at hd; rw [hd] at h3; simp [inH] at h3
+  | some act =>
+    simp only [hact] at hn
+    have hout : inH ((r.st (k + 1)).senders a).pc = false := by rw [hd]; rfl
+    have hmu := exit_releases_sendMu a h3 hn hout
+    obtain ⟨p1, p2⟩ := pinv12_reach _ (run_reach _ r (k + 1))
+    exact ⟨k + 1, by omega, hd, hmu, after_return_all_acknowledged p1 p2 hmu⟩
+
 /-! a weakly fair run to which the theorem applies: two subscribers, one Send; one subscriber receives and acknowledges, the
     other fails its TryRLock, sees the ping, unsubscribes in the middle of the Send and absorbs its copy; then stuttering -/
 def demoActs : Nat → Option Act
@@ -337,6 +357,12 @@ theorem demoRun_fair : WeakFair sys (fun _ act => sendProgress 0 act) demoRun :=
     case pingNonZero t => rcases hsub t with e | e <;> simp [enabled, sys, step, e] at he
     case unsubDecN t => rcases hsub t with e | e <;> simp [enabled, sys, step, e] at he
     case pingSub t => rcases hsub t with e | e <;> simp [enabled, sys, step, e] at he
+
+set_option maxRecDepth 20000 in
+unseal subOne in
+example : ∃ j, 18 < j ∧ ((demoRun.st j).senders 0).pc = .done ∧ (demoRun.st j).sendMu = false ∧
+    ∀ t, ((demoRun.st j).subs t).pc ≠ .got ∧ ((demoRun.st j).subs t).pc ≠ .absorbing ∧ ((demoRun.st j).subs t).owes = false :=
+  pending_waits_and_absorbs_finish 0 demoRun demoRun_fair 18 (by rfl)
 
 set_option maxRecDepth 20000 in
 unseal subOne in
